@@ -373,3 +373,27 @@ def has_undefined_quant_risk(e):
         return True
     return any(has_undefined_quant_risk(x) if isinstance(x, tuple) else any(has_undefined_quant_risk(y) for y in x) if isinstance(x, list) else False
                for x in e[1:])
+
+
+def quant_exprs(e):
+    """the non-literal numeric quantifier expressions of a tree"""
+    out = []
+    if not isinstance(e, tuple):
+        return out
+    if e[0] in ("of", "ofin", "ofat", "forin", "forlist", "forof") and not isinstance(e[1], str) and e[1][1][0] != "lit":
+        out.append(e[1][1])
+    for x in e[1:]:
+        if isinstance(x, tuple):
+            out += quant_exprs(x)
+        elif isinstance(x, list):
+            for y in x:
+                out += quant_exprs(y)
+    return out
+
+
+def mentions_var(e):
+    if not isinstance(e, tuple):
+        return False
+    if e[0] in ("var", "cur", "curat", "curin"):
+        return True
+    return any(mentions_var(x) if isinstance(x, tuple) else any(mentions_var(y) for y in x) if isinstance(x, list) else False for x in e[1:])
